@@ -10,7 +10,8 @@ RULE = ('exhaustive small scope over boundary timestamps (multiples of a day -1/
         'filter/start/end combinations, all period lists from get_periods over small ranges and both signs, all day '
         'vectors over [-2, total+1]; plus seeded random longer inputs. Non-trivial = the case reaches a planted '
         'feature (filter excludes the minimum, timestamp exactly on a boundary, day on a period boundary, '
-        'out-of-range day, negative delta, several periods).')
+        'out-of-range day, negative delta, several periods). Filters / in_range arrays whose length differs from the '
+        'data are included (numpy broadcasting / IndexError / ValueError behaviour is modelled).')
 EXHAUSTIVE = {'quick': True, 'thorough': True}
 TRUSTED = ['numpy float64 arithmetic on the generated timestamps is exact (integer / quarter-second values '
            '< 2^40): floor((t-m)/86400.0) = integer floor division (checked by this correspondence, not proved)',
@@ -109,6 +110,11 @@ def features(case, model):
         if case['s'] is not None: f.append('start')
         if case['e'] is not None: f.append('end')
         if case['s'] is not None and any(t < case['s'] for t in case['ts']): f.append('negative-day')
+        if not case['ts']: f.append('empty-ts')
+        if case['flt'] is not None and len(case['flt']) != len(case['ts']):
+            f.append('len-mismatch')
+            if 1 in (len(case['flt']), len(case['ts'])) and not isinstance(model, str): f.append('broadcast')
+        if case['s'] is None and case['e'] is None and case['flt'] is None: f.append('no-args')
     elif op == 'pmap':
         if len(case['ps']) >= 3: f.append('periods>=3')
         if case['ps'] and case['ps'][-1] < case['ps'][0]: f.append('descending')
@@ -116,6 +122,11 @@ def features(case, model):
         if case['inr'] is not None: f.append('in_range')
         if any(d < 0 or d >= len(case['pbd']) for d in case['days']): f.append('day-out-of-range')
         if len(set(case['pbd'])) >= 2: f.append('several-periods')
+        if any(d < 0 for d in case['days']) and not isinstance(model, str): f.append('negative-day-wraps')
+        if case['inr'] is not None and len(case['inr']) != len(case['days']):
+            f.append('len-mismatch')
+            if not isinstance(model, str): f.append('broadcast')
+        if not case['pbd']: f.append('empty-map')
     return f
 
 
@@ -155,6 +166,17 @@ def gen(tier, rng):
                             fdts = ['bool'] if flt is None else ['bool', 'int8']
                             for fdt in fdts:
                                 yield {'op': 'days', 'tps': tps, 'ts': list(ts), 'flt': flt, 'fdt': fdt, 's': s, 'e': e}
+    # filters whose length differs from the field's (outside the property; the model follows numpy broadcasting)
+    d = DAY
+    for ts in ([], [d + 1], [0, d], [d, 0, 2 * d + 5]):
+        for k in range(0, 4):
+            if k == len(ts):
+                continue
+            for flt in itertools.product([0, 1], repeat=k):
+                for s in (None, 1, d):
+                    for e in (None, d, 2 * d + 1):
+                        for fdt in ('bool', 'int8'):
+                            yield {'op': 'days', 'tps': 1, 'ts': list(ts), 'flt': list(flt), 'fdt': fdt, 's': s, 'e': e}
     # generate_period_offset_map on outputs of get_periods-like progressions and irregular lists
     offs = [0, 3600, DAY - 1, DAY, 2 * DAY, 2 * DAY + 5, 7 * DAY, 9 * DAY, 14 * DAY]
     for n in range(0, 5 if big else 4):
@@ -175,6 +197,13 @@ def gen(tier, rng):
                 dsl = rng.sample(dsl, 400)
             for days in dsl:
                 yield {'op': 'poff', 'pbd': pbd, 'days': list(days), 'inr': None}
+                for inr in itertools.product([0, 1], repeat=k):
+                    yield {'op': 'poff', 'pbd': pbd, 'days': list(days), 'inr': list(inr)}
+    for pbd in ([], [0, 0, 1]):
+        for days in ([], [1], [1, 2], [0, 3], [-1, 2, 1]):
+            for k in range(0, 4):
+                if k == len(days):
+                    continue
                 for inr in itertools.product([0, 1], repeat=k):
                     yield {'op': 'poff', 'pbd': pbd, 'days': list(days), 'inr': list(inr)}
     # random longer
